@@ -137,6 +137,9 @@ class SimProc:
         self.rss = kw.get("rss", 50)
         self.kthread = kw.get("kthread", False)
         self.rollup_fail = kw.get("rollup_fail", False)
+        # half released (issue 2418): /proc/<pid> still resolves, every file
+        # below it is ENOENT
+        self.releasing = kw.get("releasing", False)
         if self.zombie:
             self.state = "Z"
 
@@ -320,7 +323,7 @@ class SimKernel:
         """Light copy of the process table for the oracles."""
         return {pid: (p.inc, p.zombie, frozenset(p.threads),
                       frozenset(p.fds), p.ppid, p.starttime)
-                for pid, p in self.procs.items()}
+                for pid, p in self.procs.items() if not p.releasing}
 
     def stat_inc(self, name, n=1):
         self.stats[name] = self.stats.get(name, 0) + n
@@ -600,6 +603,11 @@ class SimKernel:
             self.reap(ev["pid"])
         elif kind == "zombify":
             self.exit(ev["pid"], ev.get("status", 0), reap=False)
+        elif kind == "halfgone":
+            p = self.procs.get(ev["pid"])
+            if p is not None:
+                p.releasing = True
+                self.bump()
         elif kind == "reuse":           # exit+reap old owner, new one starts
             kw = {k: v for k, v in ev.items() if k != "ev"}
             pid = kw["pid"]
@@ -1047,6 +1055,8 @@ class SimKernel:
             raise self._err(errno.ENOENT, path)
         if not rest:
             return {"t": "d", "p": p, "what": "piddir"}
+        if p.releasing:
+            raise self._err(errno.ENOENT, path)
         head = rest[0]
         if head in ("smaps", "smaps_rollup") and not self.has_smaps:
             raise self._err(errno.ENOENT, path)
@@ -1095,7 +1105,7 @@ class SimKernel:
                 node = dict(node, p=pinned)
                 return self._render_what(node, path, pinned, what)
         live = self.procs.get(p.pid)
-        gone = live is None or live.inc != p.inc
+        gone = live is None or live.inc != p.inc or live.releasing
         if gone:
             # thread-id paths: owner gone as well
             if what == "environ":
@@ -1421,6 +1431,8 @@ class SimKernel:
 
     def _target(self, pid, allow_tid=True):
         p = self.procs.get(pid)
+        if p is not None and p.releasing:
+            return None
         if p is None and allow_tid:
             p = self.tid_owner(pid)
         return p
